@@ -930,7 +930,10 @@ func Run(c *ev.Ctx) int {
 	if c.Only != "" {
 		nWorkers = 1
 	}
+	wedgeDone := make(chan struct{})
+	go func() { defer close(wedgeDone); wedgeLane(c) }()
 	mainLane(c, x, cases, nWorkers, dead)
+	<-wedgeDone
 	if c.Thorough() && (c.Only == "" || c.Only == "race") {
 		rng := c.Rng("race")
 		var sample []*fcase
